@@ -57,6 +57,14 @@ func (e Event) Class() string {
 		return fmt.Sprintf("adv(%s)", e.Rule)
 	case "fail-relay", "close-control":
 		return fmt.Sprintf("%s(%s)", e.K, e.C)
+	case "connect", "peerdial":
+		return fmt.Sprintf("%s(%s,%s)", e.K, e.C, strings.Join(e.Peers, "+"))
+	case "cbind":
+		return fmt.Sprintf("cbind(%s,conn=%d of %s,as=%s)", e.C, e.N, strings.Join(e.Peers, "+"), e.As)
+	case "bytes":
+		return fmt.Sprintf("bytes(%s,conn=%d,%s,seg=%d)", e.C, e.N, e.Rule, e.L)
+	case "closeconn":
+		return fmt.Sprintf("closeconn(%s,conn=%d,%s)", e.C, e.N, e.Rule)
 	}
 
 	return e.K
@@ -89,6 +97,7 @@ type Exec struct {
 	// NoSweepP2C etc. let profiles narrow the sweep.
 	SkipDeadRelays bool
 	ServerClosed   bool
+	tcp            *TCPState
 }
 
 func (x *Exec) viol(tag, class string, ev Event, detail string) *Viol {
@@ -367,6 +376,9 @@ func (x *Exec) Apply(ev Event) *Viol { //nolint:gocyclo,cyclop,maintidx,gocognit
 		return nil
 	}
 	if v, ok := x.applyTeardown(ev, now); ok {
+		return v
+	}
+	if v, ok := x.applyTCP(ev, now); ok {
 		return v
 	}
 	panic("vtx: unknown event kind " + ev.K)
